@@ -221,6 +221,10 @@ class Socks5Connection(ConnectionInterface):
 
         with self._connect_lock:
             if self._connection is None:
+                if self._connect_failed:
+                    # Another request failed to establish this connection while we
+                    # were waiting, and the pool has dropped it.
+                    raise ConnectionNotAvailable()
                 stream: NetworkStream | None = None
                 try:
                     # Connect to the proxy
